@@ -23,8 +23,10 @@ pub struct Rendered {
     pub data: Vec<Dv>,
 }
 
-const SYMBOLS: [&str; 16] = [
+const SYMBOLS: [&str; 21] = [
     "a", "foo", "set-car!", "x->y", "+", "-", "...", "->x", "<=?", "λ", "日本", "𝒳s", "a.b", "k1", "!", "*star*",
+    // tokens that start like a number and end in a multi-byte character
+    "-λ", "+∞", "2π", "1+", "-x🐶",
 ];
 const STRINGS: [(&str, &str); 9] = [
     ("\"\"", ""),
